@@ -5,6 +5,7 @@ package calcium
 
 import (
 	"context"
+	"errors"
 	"fmt"
 	"time"
 
@@ -40,13 +41,14 @@ func vPoolInvoke(_ *ants.PoolWithFunc, task interface{}) error {
 
 type vStore struct {
 	store.Store
-	nodes     map[string]*types.Node
-	podOrder  []string // order in which GetNodesByPod returns the pod's nodes
-	workloads map[string]*types.Workload
-	trace     []string // lock events: "L:<key>", "U:<key>"
-	held      map[string]bool
-	getNodeN  int
-	w         *vWorld // fault injection / ledger (nil in the pure selection harnesses)
+	nodes                 map[string]*types.Node
+	podOrder              []string // order in which GetNodesByPod returns the pod's nodes
+	workloads             map[string]*types.Workload
+	trace                 []string // lock events: "L:<key>", "U:<key>"
+	held                  map[string]bool
+	getNodeN              int
+	lockCalls, lockFailAt int     // the lockFailAt-th acquisition fails (0: none)
+	w                     *vWorld // fault injection / ledger (nil in the pure selection harnesses)
 }
 
 type vLock struct {
@@ -55,6 +57,10 @@ type vLock struct {
 }
 
 func (l *vLock) Lock(ctx context.Context) (context.Context, error) {
+	l.st.lockCalls++
+	if l.st.lockCalls == l.st.lockFailAt {
+		return ctx, vErrLock
+	}
 	l.st.trace = append(l.st.trace, "L:"+l.key)
 	l.st.held[l.key] = true
 	return ctx, nil
@@ -121,6 +127,8 @@ func (s *vStore) GetWorkloads(_ context.Context, ids []string) ([]*types.Workloa
 	}
 	return out, nil
 }
+
+var vErrLock = errors.New("lock not acquired")
 
 var vNodeNames = []string{"a", "b", "c", "d"}
 
